@@ -47,7 +47,13 @@ def make_chain(P, d, T, mass_kind, bounds_kind, use_grad=True, start=None):
     if im is not None:
         kw["inverse_mass"] = im
     if bx is not None:
-        kw["bounds"] = (bx[0].copy(), bx[1].copy())
+        if d == 2:  # both documented forms of the bounds argument
+            from inference.mcmc import Bounds
+
+            with lib("Bounds"):
+                kw["bounds"] = Bounds(lower=bx[0].copy(), upper=bx[1].copy())
+        else:
+            kw["bounds"] = (bx[0].copy(), bx[1].copy())
     if use_grad:
         kw["grad"] = P.grad
     if start is None:
@@ -527,6 +533,10 @@ def run(ck):
                         # trajectories of the gradient-free chain only where no wall is met (folds are the business of "traj")
                         fcases.append({"pot": pot, "d": d, "T": T, "mass": mass, "bounds": b, "eps_rel": 0.3, "n": 5, "seed": seed, "traj": b != "tight"})
     ck.run_cases("fd", fcases, chunk=1)
+    # vacuity guards: folds, wall-free ratios, both outcomes of the acceptance rule and zero coordinates must have been exercised
+    for needle in ("bounded-folded+", "energy-ratio free+", "energy-folded bounded-folded+", "volume bounded-folded+", "first-proposal=accepted", "first-proposal=rejected", "zero-coordinate", "on-wall"):
+        if not any(needle in t for t in ck.tags):
+            raise HarnessError(f"vacuous exploration: no case exercised '{needle}'")
     ck.rule = (
         "potential {diag, corr, quartic, sharp(log cosh)} x d {1,2,3} x step (relative to the stiffest frequency) {.01,.1,.3} x n {1,2,5,20} x T {1,2.5} x "
         "mass {default, scalar .3, vector, matrix-diagonal, matrix-full} x bounds {none, wide, tight}; thorough = full product, quick = every (d, mass, bounds) "
